@@ -11,12 +11,13 @@ REGISTRY: dict[str, "Contract"] = {}
 
 
 class Clause:
-    def __init__(self, name, fn, kind, aux=False, when=None, note=""):
+    def __init__(self, name, fn, kind, aux=False, when=None, note="", props=None):
         self.name = name
         self.fn = fn
         self.kind = kind  # requires | ensures | raises | invariant
         self.aux = aux
         self.note = note
+        self.props = props  # None = the contract's properties
         self._ast = None
         self.module = getattr(fn, "__module__", None)
 
@@ -74,16 +75,16 @@ class Contract:
             return f
         return deco(fn) if fn else deco
 
-    def ensures(self, fn=None, *, name=None, aux=False, note=""):
+    def ensures(self, fn=None, *, name=None, aux=False, note="", props=None):
         def deco(f):
-            self.ensures_.append(Clause(name or f.__name__, f, "ensures", aux=aux, note=note))
+            self.ensures_.append(Clause(name or f.__name__, f, "ensures", aux=aux, note=note, props=props))
             return f
         return deco(fn) if fn else deco
 
-    def raises(self, fn=None, *, name=None, aux=False, note=""):
+    def raises(self, fn=None, *, name=None, aux=False, note="", props=None):
         """Postcondition of exceptional exits; parameter ``exc`` is the exception object."""
         def deco(f):
-            self.raises_.append(Clause(name or f.__name__, f, "raises", aux=aux, note=note))
+            self.raises_.append(Clause(name or f.__name__, f, "raises", aux=aux, note=note, props=props))
             return f
         return deco(fn) if fn else deco
 
